@@ -427,6 +427,12 @@ impl<'a> Exec<'a> {
                             }
                         }
                         match d.area {
+                            // C03 quantifies over histories "with reopen allowed between any two operations":
+                            // table contents that differ from the model after a clean reopen break it too
+                            Area::Rows | Area::Tables if phase == Phase::Reopen => checks.push("C03.reopen-step"),
+                            _ => {}
+                        }
+                        match d.area {
                             Area::Schema => checks.push("C06.schema-reopen"),
                             Area::Summary => checks.push("C10.getters-reopen"),
                             Area::StreamList | Area::Signature => checks.push("C11.listing"),
@@ -1122,6 +1128,9 @@ impl<'a> Exec<'a> {
                     self.viol(if phase == Phase::CrashAfterFlush { "C01.crash-after-flush" } else { "C01.reopen-eq" }, "open", m.clone());
                     if self.foreign {
                         self.viol(if phase == Phase::FirstOpen { "C02.first-open-eq" } else { "C02.edit-preserves" }, "open", m.clone());
+                    }
+                    if phase == Phase::Reopen {
+                        self.viol("C03.reopen-step", "open", m.clone());
                     }
                     if self.limits {
                         self.viol("C20.saved-unreadable", "open", m.clone());
